@@ -1135,8 +1135,14 @@ def family_check(family):
     return check
 
 
+# entries that run scipy's fmin (~100 library calls per case): drawn a third as often as the others
+SLOW_ENTRIES = ("fsr.rotationFromVector(tm*,tm)", "fsr.adjustRotationToMidpoint(tm,tm,tm,mode=1)")
+
+
 def family_strategy(family):
-    names = sorted(FAMILIES[family])
+    names = []
+    for n in sorted(FAMILIES[family]):
+        names += [n] if n in SLOW_ENTRIES else [n, n, n]
     return st.sampled_from(names).flatmap(
         lambda n: st.fixed_dictionaries({"entry": st.just(n), "ops": st.fixed_dictionaries(FAMILIES[family][n].strategies)}))
 
@@ -1301,7 +1307,10 @@ def c_mr_functions(case, ctx):
         from vf.core import Ctx
         _WARMED.add("mr")
         for name in sorted(FAMILIES["mr_functions"]):
-            run_entry("mr_functions", _canon_case("mr_functions", name), Ctx())
+            try:
+                run_entry("mr_functions", _canon_case("mr_functions", name), Ctx())
+            except Violation:
+                pass                 # compilation only: verdicts come from generated cases, never from the warm-up
     run_entry("mr_functions", case, ctx)
 
 
